@@ -74,10 +74,14 @@ class AbstractBenchParser(AbstractParser, metaclass=abc.ABCMeta):
         if line == '' or line == '\n' or line[0] == '#':
             # Empty or comment line
             return []
-        elif line.upper().startswith('INPUT'):
+
+        # A declaration is `INPUT(...)` / `OUTPUT(...)`; a gate label may itself
+        # start with these keywords (e.g. `input1 = AND(a, b)`).
+        _head = line.split('(', 1)[0].rstrip(' ').upper()
+        if _head == 'INPUT':
             # Input Gate
             return self._process_input_gate(line)
-        elif line.upper().startswith('OUTPUT'):
+        elif _head == 'OUTPUT':
             # Output Gate
             return self._process_output_gate(line)
         else:
